@@ -241,11 +241,8 @@ def some(x):
 
 
 class Resolver:
-    def __init__(self, bundle, args, transform=None, formatter=b'none', locale=b'en', functions=bundle_run_function,
-                 structural_cycles=False):
-        # the property: a cycle = a reference to an entry (message value / attribute, term value / attribute) that is
-        # being expanded.  structural_cycles=True is the reading of scope.rs (a pattern EQUAL to one being expanded).
-        self.structural_cycles = structural_cycles
+    def __init__(self, bundle, args, transform=None, formatter=b'none', locale=b'en', functions=bundle_run_function):
+        # a cycle = a reference to an entry (message value / attribute, term value / attribute) that is being expanded
         self.b = bundle
         self.args = args                  # dict or None : the caller's arguments
         self.transform = transform
@@ -345,7 +342,7 @@ class Resolver:
         """target: ('found', pattern, name) | ('unknown',) | ('novalue', id)"""
         if target[0] == 'found':
             q, name = target[1], target[2]
-            if (any(q == t[1] for t in T) if self.structural_cycles else any(name == t[0] for t in T)):
+            if any(name == t[0] for t in T):
                 self.error(b'Cyclic')
                 return b'{' + source_form(ref) + b'}'
             return self.pattern(q, ((name, q),) + T, env)
